@@ -1,6 +1,7 @@
 import PhyloModel.Arena.Query
 import PhyloModel.Newick.Writer
 import PhyloModel.Split.Model
+import PhyloModel.Matrix.Store
 /-! Line-protocol driver: runs the executable definitions of the model, one request per line
     (tab-separated fields), one answer line per request.  See /verif/PROTOCOL.md.
     Unknown or ill-formed requests answer `bad-op`; nothing is ever defaulted. -/
@@ -151,6 +152,7 @@ def nwWrite (f : FM.Fmt) (slots : List (Bool × NW.PNode NW.Label)) : String :=
 structure DState where
   ar : AR.Arena := #[]
   ar2 : AR.Arena := #[]
+  mx : MXS.Mat Int := { taxa := [], v := #[] }
 
 def encOut : AR.Out → String
   | .ok none => "ok"
@@ -224,6 +226,32 @@ def spQuery (a b : AR.Arena) : List String → Option String
       (do let s ← AR.absRoot a; let o ← AR.absRoot b; SPM.compareBranches s o (t == "1")))
   | _ => none
 
+def encMRes {β : Type} (f : β → String) : MXS.Res β → String
+  | .ok v => "ok " ++ f v
+  | .err k => "err " ++ k
+  | .panic => "panic"
+
+def decTaxa (s : String) : Option (List String) :=
+  if s == "_" then some [] else (s.splitOn ",").mapM hexDec
+def decInts (s : String) : Option (List Int) :=
+  if s == "_" then some [] else (words s).mapM String.toInt?
+
+def mxQuery (m : MXS.Mat Int) : List String → Option String
+  | ["get", a, b] => do
+    let a ← hexDec a; let b ← hexDec b
+    pure (encMRes toString (MXS.get (0 : Int) m a b))
+  | ["min"] => some (match MXS.extremum (fun (x y : Int) => decide (x < y)) m with
+      | some ((i, j), v) => s!"ok {i} {j} {v}" | none => "ok -")
+  | ["max"] => some (match MXS.extremum (fun (x y : Int) => decide (x > y)) m with
+      | some ((i, j), v) => s!"ok {i} {j} {v}" | none => "ok -")
+  | ["iter"] => some ("ok " ++ " ".intercalate ((MXS.indexedIter m).map (fun ((i, j), v) => s!"{i},{j}={v}")))
+  | ["tomap"] => some ("ok " ++ " ".intercalate (sortStr ((MXS.toMap (0 : Int) m).map
+      (fun ((a, b), r) => s!"{hexEnc a},{hexEnc b}={encMRes toString r}"))))
+  | ["idx", i, j] => do let i ← i.toNat?; let j ← j.toNat?; pure s!"ok {MX.cell i j}"
+  | ["inv", k] => do let k ← k.toNat?; let p := MXS.invIdx k; pure s!"ok {p.1} {p.2}"
+  | ["dump"] => some ("ok " ++ ",".intercalate (m.taxa.map hexEnc) ++ " | " ++ " ".intercalate (m.v.toList.map toString))
+  | _ => none
+
 def dispatch (st : DState) (fs : List String) : DState × String :=
   let bad := (st, "bad-op")
   match fs with
@@ -232,6 +260,15 @@ def dispatch (st : DState) (fs : List String) : DState × String :=
   | ["ar.swap"] => ({ st with ar := st.ar2, ar2 := st.ar }, "ok")
   | "sp" :: q => match spQuery st.ar st.ar2 q with | some r => (st, r) | none => bad
   | ["nop"] => (st, "ok")
+  | ["mx.new", taxa, cells] => match decTaxa taxa, decInts cells with
+    | some t, some c => ({ st with mx := { taxa := t, v := c.toArray } }, "ok")
+    | _, _ => bad
+  | ["mx.set", a, b, v] => match hexDec a, hexDec b, v.toInt? with
+    | some a, some b, some v =>
+      let (m, r) := MXS.set (fun (x : Int) => x == 0) st.mx a b v
+      ({ st with mx := m }, encMRes (fun _ => "") r)
+    | _, _, _ => bad
+  | "mx" :: q => match mxQuery st.mx q with | some r => (st, r) | none => bad
   | ["ar.dump"] => (st, encArena st.ar)
   | ["ar.inv"] => (st, s!"{encBool (AR.checkInv st.ar)} {(AR.liveRoots st.ar).length}")
   | ["ar.add", n] => match decOptStr n with
